@@ -571,6 +571,10 @@ fn pivot(raw: &[P2], rfac: f64, cw: bool, fill: &Option<f64>) -> Verdict {
                         ks.iter().any(|k| pts.iter().enumerate().any(|(i, q)| i != *k && (q - pts[*k]).norm() <= 1e-4 * radius))
                     };
                 let near_tie = near_contact || (s >= 1 && ((p - centers[s - 1]).norm() - radius).abs() <= 1e-5 * radius && j != indices[s - 1]);
+                // or the tie happened one step earlier: the point the ball now pivots on was already (within 1e-5 r) on the
+                // ball two steps back, so its first contact fell inside the angular threshold, the ball took its second
+                // contact (swinging through it), and only now runs into the point it came from
+                let near_tie = near_tie || (s >= 2 && ((pts[indices[s]] - centers[s - 2]).norm() - radius).abs() <= 1e-5 * radius);
                 let which = if near_tie { "near_cocircular_tie" } else if s >= 1 && j == indices[s - 1] { "previous_point" } else { "other_point" };
                 return Verdict::fail(format!("C15/ball_pivot/point_inside_ball/{which}"), format!("step {s} ({} -> {}): input point {j} is {:e} inside the reported ball of radius {radius:e} (it is {})", indices[s], indices[s + 1], radius - d, if which == "previous_point" { "the point visited just before" } else if which == "near_cocircular_tie" { "a point that was within 1e-5 r of the previous ball: a near co-circular triple" } else { "another point" }));
             }
